@@ -548,11 +548,13 @@ class ShapleyImportance(Importance):
             new_score = null_score
             truncation_counter = 0
 
-            for j, idx in enumerate(idxs):
+            # The first step (idx == -1) scores the coalition of no units, which can still hold tuples.
+            for j, idx in enumerate(np.append(-1, idxs), start=-1):
                 old_score = new_score
 
                 # Get indices of data points selected based on the iteration query.
-                query[units[idx]] = world[idx]
+                if idx >= 0:
+                    query[units[idx]] = world[idx]
                 indices = provenance.query(query)
 
                 # Train the model and score it. If we fail at any step we get zero score.
@@ -612,6 +614,8 @@ class ShapleyImportance(Importance):
                     except (ValueError, RuntimeWarning, UserWarning):
                         pass
 
+                if idx < 0:
+                    continue
                 importance[idx] = new_score - old_score
 
                 if np.abs(new_score - mean_score) <= np.abs(tolerance * mean_score):
